@@ -509,6 +509,9 @@ def diff_ignore_keys(inner_differ, ignore_keys):
             if e.key not in ignore_keys:
                 ret.append(e)
         return ret
+    # (lets set_notebook_diff_ignores see what is installed already)
+    ignored_diff.inner_differ = inner_differ
+    ignored_diff.ignore_keys = tuple(ignore_keys)
     return ignored_diff
 
 
@@ -576,7 +579,16 @@ def set_notebook_diff_ignores(ignore_paths):
             if path in notebook_differs:
                 del notebook_differs[path]
         elif isinstance(subkeys, (list, tuple, set)):
-            notebook_differs[path] = diff_ignore_keys(notebook_differs[path], subkeys)
+            inner = notebook_differs[path]
+            keys = list(subkeys)
+            if hasattr(inner, 'ignore_keys'):
+                # Already a key filter: filter what it wraps by the keys of
+                # both, instead of nesting one more level each time the
+                # same options are set
+                keys = list(inner.ignore_keys) + [
+                    k for k in keys if k not in inner.ignore_keys]
+                inner = inner.inner_differ
+            notebook_differs[path] = diff_ignore_keys(inner, keys)
         else:
             raise ValueError('Invalid ignore config entry: %r: %r' % (path, subkeys))
 
